@@ -100,6 +100,26 @@ fn table_for(a: &Atom) -> Vec<(String, Vec<u8>)> {
             t.push((format!("tag={}", v), v.to_le_bytes().to_vec()));
         }
     }
+    if let Kind::Len(n) = a.kind {
+        // element count of a fixed-size array: only the true count is canonical
+        let mut vals: Vec<(String, u64)> = vec![
+            ("count+1".into(), n + 1),
+            ("count+2".into(), n + 2),
+            ("count*2".into(), n * 2 + 1),
+            ("count+2^32".into(), n + (1 << 32)),
+            ("count=2^63".into(), 1 << 63),
+            ("count=2^64-1".into(), u64::MAX),
+        ];
+        if n > 0 {
+            vals.push(("count-1".into(), n - 1));
+            vals.push(("count=0".into(), 0));
+        }
+        for (l, v) in vals {
+            if v != n {
+                t.push((l, v.to_le_bytes().to_vec()));
+            }
+        }
+    }
     t
 }
 
@@ -115,8 +135,8 @@ fn tamper_gen(ctx: &Ctx) -> Vec<TamperCase> {
             let n = img.atoms.len();
             let cap = ctx.tier.pick(40usize, usize::MAX);
             for (ai, a) in img.atoms.iter().enumerate() {
-                if matches!(a.kind, Kind::Len(_)) {
-                    continue; // length prefixes are C16's business
+                if matches!(a.kind, Kind::Len(_)) && t.name.starts_with("codec Vec") {
+                    continue; // a true variable-length sequence: another count is another value (robustness: C16)
                 }
                 // quick: for big types keep a spread of atoms (always first and last)
                 if n > cap && !(ai < 8 || ai + 8 >= n || (ai.wrapping_mul(2654435761) ^ ctx.seed as usize) % n < cap) {
@@ -263,6 +283,31 @@ fn text_strategy(_t: Tier) -> impl Strategy<Value = TextCase> {
     ]
 }
 
+/// `ChannelId::from_str`; a panic counts as "did not parse" here (that it must not happen is C16).
+pub fn parse_cid(s: &str) -> Result<ChannelId, String> {
+    match crate::engine::no_panic(|| ChannelId::from_str(s)) {
+        Ok(r) => r.map_err(|e| e.to_string()),
+        Err(p) => Err(format!("panicked: {}", p)),
+    }
+}
+
+pub fn text_case_string(c: &TextCase) -> String {
+    match c {
+        TextCase::Valid(b) | TextCase::WrongLength(b) => base64::encode(b),
+        TextCase::BadChar(b, i, ch) => {
+            let mut s = base64::encode(b).into_bytes();
+            let i = *i as usize % s.len();
+            s[i] = *ch;
+            String::from_utf8_lossy(&s).to_string()
+        }
+        TextCase::Garbage(s) => s.clone(),
+    }
+}
+
+pub fn text_strategy_pub(t: Tier) -> impl Strategy<Value = TextCase> {
+    text_strategy(t)
+}
+
 fn text_oracle(c: &TextCase, rec: &Rec) -> R {
     rec.eval(1);
     match c {
@@ -270,12 +315,12 @@ fn text_oracle(c: &TextCase, rec: &Rec) -> R {
             let id: ChannelId = wire::dec(b).map_err(|e| Fail::new("harness/channel-id", e))?;
             let s = id.to_string();
             ensure!(s == base64::encode(b), "C15/channel-id-text-not-base64", "Display is not the base64 of the bytes");
-            let back = ChannelId::from_str(&s).map_err(|e| Fail::new("C15/channel-id-text-does-not-parse", e.to_string()))?;
+            let back = parse_cid(&s).map_err(|e| Fail::new("C15/channel-id-text-does-not-parse", e))?;
             ensure!(back.to_bytes().to_vec() == *b && back.to_string() == s, "C15/channel-id-text-round-trip", "printing and parsing a channel id changes it");
             rec.class("text/valid");
         }
         TextCase::WrongLength(b) => {
-            ensure!(ChannelId::from_str(&base64::encode(b)).is_err(), "C15/channel-id-text-wrong-length-accepted", "a {}-byte base64 string parsed as a channel id", b.len());
+            ensure!(parse_cid(&base64::encode(b)).is_err(), "C15/channel-id-text-wrong-length-accepted", "a {}-byte base64 string parsed as a channel id", b.len());
             rec.class("text/wrong-length");
         }
         TextCase::BadChar(b, i, ch) => {
@@ -284,13 +329,13 @@ fn text_oracle(c: &TextCase, rec: &Rec) -> R {
             s[i] = *ch;
             let text = String::from_utf8_lossy(&s).to_string();
             let reference = base64::decode(&text).ok().filter(|v| v.len() == 32);
-            let got = ChannelId::from_str(&text).ok().map(|x| x.to_bytes().to_vec());
+            let got = parse_cid(&text).ok().map(|x| x.to_bytes().to_vec());
             ensure!(got == reference, "C15/channel-id-text-parse-disagrees", "parsing '{}' gave {:?}, base64 reference {:?}", text, got.is_some(), reference.is_some());
             rec.class(if reference.is_some() { "text/altered-still-valid" } else { "text/altered-invalid" });
         }
         TextCase::Garbage(s) => {
             let reference = base64::decode(s).ok().filter(|v| v.len() == 32);
-            let got = ChannelId::from_str(s).ok().map(|x| x.to_bytes().to_vec());
+            let got = parse_cid(s).ok().map(|x| x.to_bytes().to_vec());
             ensure!(got == reference, "C15/channel-id-text-parse-disagrees", "parsing arbitrary text disagrees with base64 reference");
             rec.class("text/garbage");
         }
@@ -318,7 +363,7 @@ fn checks_structured() -> Vec<CheckDef> {
         ),
         enum_check(
             "tampered-atoms",
-            "enumerated (type, honest seed, atom position, entry of the invalid/boundary table for the atom kind): G1/G2 {identity, x>=p, x not on curve, on-curve point outside the subgroup, flag inconsistencies, all-ff, all-zero}, scalars {q, q+1, 2^256-1, 0, 1, q-1, close tag}, u64 {0, 2^63-1, 2^63, 2^63+1, 2^64-1}, i64 boundaries, bytes and enum tags; quick samples atom positions of big types, thorough enumerates all; oracle: decode Ok <=> independent schema decoder (kind validity + exactly the invariants the property lists, keyed by traced (type, field)) accepts, and Ok(v) re-encodes to the input bytes; distinct by (type, atom, entry)",
+            "enumerated (type, honest seed, atom position, entry of the invalid/boundary table for the atom kind): G1/G2 {identity, x>=p, x not on curve, on-curve point outside the subgroup, flag inconsistencies, all-ff, all-zero}, scalars {q, q+1, 2^256-1, 0, 1, q-1, close tag}, u64 {0, 2^63-1, 2^63, 2^63+1, 2^64-1}, i64 boundaries, bytes and enum tags, element-count prefixes of fixed-size arrays {count+1, +2, *2+1, +2^32, 2^63, 2^64-1, count-1, 0}; quick samples atom positions of big types, thorough enumerates all; oracle: decode Ok <=> independent schema decoder (kind validity + exactly the invariants the property lists, keyed by traced (type, field)) accepts, and Ok(v) re-encodes to the input bytes; distinct by (type, atom, entry)",
             &[],
             false,
             tamper_gen,
